@@ -222,7 +222,7 @@ def desugar (opT obs : List String) : Option Desug :=
   | "coord" :: kind :: id :: sc :: offms :: rest => do
     let status := obs.head?.getD ""
     if status == "unsupported" then return { opT := opT, obs := obs, skip := true }
-    if status == "blocked" || status == "dead" || status == "panic" then return { opT := ["rel", id], obs := obs }
+    if status == "blocked" || status == "dead" || status == "panic" || status == "harnesserr" then return { opT := ["rel", id], obs := obs }
     let offN ← offms.toInt?
     let k ← (match kind with | "new" => some CKind.created | "up" => some CKind.updated | "del" => some CKind.deleted | _ => none)
     let get := fun (key : String) => (field (key ++ "=") rest).getD ""
@@ -315,6 +315,10 @@ def judge (_id : String) (lines : Array String) : Verdict := Id.run do
     let some op := parseOp opT | return .badop l
     let status := obs.head?.getD ""
     if status == "badcron" || status == "badline" || status == "" then return .badop l
+    -- the HARNESS gave up (a wait outlasted its hard deadline without the call having returned or being provably
+    -- blocked): no verdict about the implementation, the check has not run
+    if status == "harnesserr" || status == "unsettled" then
+      return .badop s!"harness error: no quiescence / no return within the hard deadline at `{" ".intercalate opT}`"
     if status == "blocked" then return .specfail "returns-promptly" s!"{" ".intercalate opT} did not return"
     if status == "panic" then return .specfail "no-panic" s!"{" ".intercalate opT} panicked"
     if status == "dead" then return .badop l
